@@ -91,3 +91,15 @@ Example C03_example :
   /\ dispatch ["api"] rs "GET" ["p"; "7"; "x"] = None
   /\ dispatch ["api"] rs "PUT" ["api"; "p"; "7"; "x"] = None.
 Proof. vm_compute. repeat split. Qed.
+
+(** The router knows a variable under the name the path template gives it and under no other: a wrapper that asks under
+    another spelling (the name of the Go variable made of it: user_id / userId) finds nothing, whatever the request. *)
+Theorem C03_asked_under_another_name_nothing_found : forall t path b w,
+  match_template t path = Some b -> ~ In w (vars t) -> lookup b w = None.
+Proof. exact asked_under_another_name_nothing_found. Qed.
+Print Assumptions C03_asked_under_another_name_nothing_found.
+
+Example C03_go_variable_name_is_not_the_template_name :
+  exists b, match_template [SLit "a"; SVar "user_id"] ["a"; "7"] = Some b
+            /\ lookup b "user_id" = Some "7" /\ lookup b "userId" = None.
+Proof. eexists. vm_compute. repeat split; reflexivity. Qed.
